@@ -13,7 +13,11 @@ Record variant := mkvar {
   v_accepted : list (string * list string);      (* dest -> option strings the parser accepts for it *)
   v_action_dests : list string;                  (* dests of all registered actions *)
   v_hidden : list (string * bool);               (* non-exposed field -> every probed spelling was rejected with status 2 *)
+  v_hidden_only_in_desc : bool;                  (* no hidden field's name (either spelling) in the usage line, the `options:` section,
+                                                    any entry's option strings, default or help text *)
   v_format_help_same : bool;                     (* format_help() on the same parser equals the printed text *)
+  v_later_types_same : bool;                     (* the later parse and the fresh parse return values of the same Python types
+                                                    (7 / "7" / 7.0 / True print alike or nearly so) *)
   v_api : res (list group);                      (* print_help() called directly on a fresh parser *)
   v_after : res (list (string * option string)); (* a parse on that same parser afterwards (non-required exposed fields) *)
   v_fresh : res (list (string * option string))  (* the same parse on a fresh parser *)
@@ -73,10 +77,11 @@ Definition variant_spec_ok (c : case) (v : variant) : bool :=
       && help_describes (layered c.(c_pre) c.(c_cfgf)) v.(v_accepted) c.(c_forest) v.(v_groups)
       && hidden_ok c.(c_forest) v.(v_action_dests) v.(v_hidden)
       && hidden_not_mentioned c.(c_forest) v.(v_groups)
+      && v.(v_hidden_only_in_desc)
       && v.(v_format_help_same)
       && (negb v.(v_full)
           || (res_eqb groups_eqb v.(v_api) (Ok v.(v_groups))     (* print_help() shows what --help shows *)
-              && res_eqb view_eqb v.(v_after) v.(v_fresh)))      (* and leaves later parsing alone *)
+              && res_eqb view_eqb v.(v_after) v.(v_fresh) && v.(v_later_types_same)))      (* and leaves later parsing alone *)
   end.
 
 Definition spec_ok (c : case) : bool :=
